@@ -125,7 +125,12 @@ CalcOperands == { <<Dim(3, "px", FALSE)>>, <<Dim(2, "rpx", FALSE)>>, <<Pct(4, FA
                   <<Num(8, FALSE)>> }      \* pool entry 8: a negative number, so that `- -1` is met
 CalcSums == { l \o <<Dl(op, TRUE)>> \o SetW(r, TRUE) : l \in CalcOperands, r \in CalcOperands, op \in {"+", "-"} }
        \cup { l \o <<Dl(op, w1)>> \o SetW(r, w2) : l \in CalcOperands, r \in CalcOperands, op \in {"*", "/"}, w1 \in BOOLEAN, w2 \in BOOLEAN }
-CalcWraps(e) == { <<Fn("calc", e, FALSE)>>, <<Fn("CALC", e, FALSE)>>,      \* function names are ASCII case-insensitive <<Fn("calc", <<Par(e, FALSE), Dl("*", TRUE), Num(2, TRUE)>>, FALSE)>>,
+(* (function names are ASCII case-insensitive; min / max / clamp are math functions like calc) *)
+CalcWraps(e) == { <<Fn("calc", e, FALSE)>>, <<Fn("CALC", e, FALSE)>>,
+                  <<Fn("calc", <<Par(e, FALSE), Dl("*", TRUE), Num(2, TRUE)>>, FALSE)>>,
+                  <<Fn("min", e \o <<Com(FALSE), Dim(3, "px", TRUE)>>, FALSE)>>, <<Fn("MIN", e, FALSE)>>,
+                  <<Fn("clamp", <<Dim(3, "px", FALSE), Com(FALSE)>> \o SetW(e, TRUE) \o <<Com(FALSE), Pct(4, TRUE)>>, FALSE)>>,
+                  <<Fn("translate", <<Fn("max", e \o <<Com(FALSE), Num(2, TRUE)>>, FALSE)>>, FALSE)>>,
                   <<Fn("calc", <<Fn("max", e \o <<Com(FALSE), Dim(3, "px", TRUE)>>, FALSE)>>, FALSE)>>,
                   <<Fn("translate", <<Fn("calc", e, FALSE), Com(FALSE), Num(1, TRUE)>>, FALSE)>> }
 FCalc(lazy) == { <<Rule(<<Dl(".", FALSE), I("a", FALSE)>>, <<Decl(p, v)>>)>> : v \in UNION { CalcWraps(e) : e \in CalcSums }, p \in {"width"} }
